@@ -23,6 +23,8 @@ type extRec struct {
 	Class  string `json:"class"`
 	Cat    string `json:"cat"`
 	Normal string `json:"normal"` // class of the same lookup without injection
+	Got    int    `json:"got"`    // enumerations: elements yielded before the call returned
+	Total  int    `json:"total"`  // enumerations: elements in the container (0 for lookups)
 }
 
 var errCallback = errors.New("injected callback failure")
@@ -131,6 +133,102 @@ func cmdExtErrRun(args []string) {
 						if !fired {
 							break
 						}
+					}
+				}
+			}
+			// C13 + C18: every enumeration flavour of the committed multi-slab map with the k-th ledger read failing: the failure must
+			// surface as an external error, and a call that reports success must have yielded every element
+			type enumFn func(m *atree.OrderedMap) (int, error)
+			cmpOK := testutils.CompareValue
+			hipOK := testutils.GetHashInput
+			enums := []struct {
+				name string
+				f    enumFn
+			}{
+				{"Enum:Iterate", func(m *atree.OrderedMap) (int, error) {
+					n := 0
+					err := m.Iterate(cmpOK, hipOK, func(k, v atree.Value) (bool, error) { n++; return true, nil })
+					return n, err
+				}},
+				{"Enum:IterateKeys", func(m *atree.OrderedMap) (int, error) {
+					n := 0
+					err := m.IterateKeys(cmpOK, hipOK, func(k atree.Value) (bool, error) { n++; return true, nil })
+					return n, err
+				}},
+				{"Enum:IterateValues", func(m *atree.OrderedMap) (int, error) {
+					n := 0
+					err := m.IterateValues(cmpOK, hipOK, func(v atree.Value) (bool, error) { n++; return true, nil })
+					return n, err
+				}},
+				{"Enum:IterateReadOnly", func(m *atree.OrderedMap) (int, error) {
+					n := 0
+					err := m.IterateReadOnly(func(k, v atree.Value) (bool, error) { n++; return true, nil })
+					return n, err
+				}},
+				{"Enum:IterateReadOnlyKeys", func(m *atree.OrderedMap) (int, error) {
+					n := 0
+					err := m.IterateReadOnlyKeys(func(k atree.Value) (bool, error) { n++; return true, nil })
+					return n, err
+				}},
+				{"Enum:IterateReadOnlyValues", func(m *atree.OrderedMap) (int, error) {
+					n := 0
+					err := m.IterateReadOnlyValues(func(v atree.Value) (bool, error) { n++; return true, nil })
+					return n, err
+				}},
+				{"Enum:Iterator", func(m *atree.OrderedMap) (int, error) {
+					it, err := m.Iterator(cmpOK, hipOK)
+					if err != nil {
+						return 0, err
+					}
+					n := 0
+					for {
+						k, _, err := it.Next()
+						if err != nil {
+							return n, err
+						}
+						if k == nil {
+							return n, nil
+						}
+						n++
+					}
+				}},
+				{"Enum:ReadOnlyIterator", func(m *atree.OrderedMap) (int, error) {
+					it, err := m.ReadOnlyIterator()
+					if err != nil {
+						return 0, err
+					}
+					n := 0
+					for {
+						k, _, err := it.Next()
+						if err != nil {
+							return n, err
+						}
+						if k == nil {
+							return n, nil
+						}
+						n++
+					}
+				}},
+			}
+			for _, en := range enums {
+				for k := 1; k <= 40; k++ {
+					ledger := w.Ledger.Clone()
+					st := newStorage(ledger)
+					ledger.SetReadFaultPlan(k)
+					var err error
+					got := 0
+					m, oerr := atree.NewMapWithRootID(st, rootID, dig)
+					if oerr != nil {
+						err = oerr
+					} else {
+						got, err = en.f(m)
+					}
+					fired := ledger.Reads >= k
+					ei := classify(err)
+					t++
+					wr.Write(extRec{T: t, Ev: "ExtErr", Kind: "map:" + mode, Op: en.name, Inject: "ledger", K: k, Fired: fired, Class: ei.Class, Cat: ei.Cat, Normal: "ok", Got: got, Total: nkeys})
+					if !fired {
+						break
 					}
 				}
 			}
